@@ -20,6 +20,9 @@ type Config struct {
 	Files     map[string]string // all sources; wire files are those importing github.com/google/wire
 	Injectors []string
 	Invalid   string // non-empty: the migrator must refuse (kind of defect)
+	// Patterns, if set, are the package patterns handed to migrate, relative to the
+	// configuration's directory (default: the directory itself).
+	Patterns []string
 }
 
 const wireHdr = "//go:build wireinject\n\npackage cfg\n\nimport \"github.com/google/wire\"\n\n"
@@ -206,6 +209,15 @@ func InitApp2(dsn string) (*App, error) {
 	return nil, nil
 }
 `, "InitApp", "InitApp2"))
+	// one constructor in two element lists, only the first of which binds it (the lists live
+	// in files that are transformed in that order)
+	out = append(out, &Config{Family: "W2", Desc: "constructor bound in one list and plain in a later one, two files", Pkg: "cfg", Name: "bind-then-plain",
+		Injectors: []string{"InitApp", "InitPG"},
+		Files: map[string]string{
+			"types.go":  featTypes,
+			"a_wire.go": wireHdr + "var RepoSet = wire.NewSet(NewPG, wire.Bind(new(Repo), new(*PG)))\n\nfunc InitApp(dsn string) (*App, error) {\n\twire.Build(RepoSet, NewDB, NewLogger, NewApp)\n\treturn nil, nil\n}\n",
+			"b_wire.go": wireHdr + "func InitPG(dsn string) (*PG, error) {\n\twire.Build(NewPG, NewDB)\n\treturn nil, nil\n}\n",
+		}})
 	out = append(out, feature("value", "Value of a basic type", `
 func InitApp() *App {
 	wire.Build(wire.Value("svc"), NewLogger, NewAppN)
@@ -336,6 +348,18 @@ func invalidConfigs() []*Config {
 		"b.go": "//go:build wireinject\n\npackage cfg\n\nimport \"github.com/google/wire\"\n\nvar S = wire.NewSet(NewCache)\n"})
 	mk("missing-constructor", "Bind to a type without constructor", map[string]string{"types.go": strings.Replace(strings.Replace(featTypes, "func NewPG(db *DB) *PG                   { return &PG{} }\n", "", 1), "func ProvidePG(db *DB, l *Logger) *PG    { return &PG{} }\n", "", 1),
 		"wire.go": wireHdr + "var RepoSet = wire.NewSet(wire.Bind(new(Repo), new(*PG)))\n"})
+	// several packages of one name in one invocation, the defect in the second one
+	good := "package main\n\ntype L struct{ _ int }\n\nfunc NewL() *L { return &L{} }\n\nfunc main() {}\n"
+	goodWire := "//go:build wireinject\n\npackage main\n\nimport \"github.com/google/wire\"\n\nfunc InitL() *L {\n\twire.Build(NewL)\n\treturn nil\n}\n"
+	for _, kind := range []string{"syntax", "type"} {
+		bad := "//go:build wireinject\n\npackage main\n\nimport \"github.com/google/wire\"\n\nfunc InitL() *L {\n\twire.Build(NewL,\n"
+		if kind == "type" {
+			bad = "//go:build wireinject\n\npackage main\n\nimport \"github.com/google/wire\"\n\nvar S = wire.NewSet(NoSuchProvider)\n"
+		}
+		out = append(out, &Config{Family: "WI", Desc: kind + " error in the second of two packages named main", Pkg: "main", Invalid: kind + "-second-package",
+			Patterns: []string{"./cmd/api", "./cmd/worker"},
+			Files: map[string]string{"cmd/api/main.go": good, "cmd/api/wire.go": goodWire, "cmd/worker/main.go": good, "cmd/worker/wire.go": bad}})
+	}
 	return out
 }
 
